@@ -442,7 +442,7 @@ def record(world, rng, pool, same_app=False):
             if broken and heals < 3 and not sc.dead and not busy and rng.random() < 0.15:
                 choices += ['Heal']
             full = [v for v in INSTS4 if isinstance(sc.storage.get(v), AppStorage) and sc.storage[v].d and sc.status[v] == 'ok']
-            if full and rng.random() < 0.15:
+            if full and rng.random() < 0.3:
                 choices += ['Forget']
             if free and nval < 10:
                 choices += ['Validate'] * 2
@@ -511,7 +511,7 @@ def judge_batch(ctx, recs, tag, forced, same_app):
             f.write(json.dumps(r) + '\n')
     cfgp = os.path.join(tlc.BUILD, 'TrustChainTrace_%d.cfg' % same_app)
     tlc.write_cfg(cfgp, spec='TSpec', constants=consts(INSTS4, 10, 'W2', forced[1], forced[0], anchors='AnyAnchor', maxheal=3,
-                                                       slots=SLOTS6, same_app=same_app),
+                                                       slots=SLOTS6, same_app=same_app, stores='AnyStore'),
                   invariants=['TypeOK'], constraints=['Mark'], postcondition='Post')
     r, rejected = tlc.validate_traces('TrustChainTrace', cfgp, tf, tag='c14tr')
     ctx.add_tlc('TrustChainTrace (%d traces)' % len(recs), r)
@@ -593,9 +593,13 @@ def stage_a(ctx):
     # key algorithms by role (anchor / intermediate certificate / packet signer): the verdict is that of the chain
     big.append(('key algorithms by role', consts(['v1'], 1, ctx.pick('WAlgQ', 'WAlgT'), anchors='MCAnchorsAlg'), INVS, [], False, False))
     # how a link names its signer: full names (right / other packet / nobody's packet) and key names at every link
-    big.append(('names of the signer, depth<=3, 1 validation', consts(INSTS2, 1, 'WPin3'), INVS, [], False, True))
-    big.append(('names of the signer, depth<=%d, 2 validations' % ctx.pick(2, 3), consts(INSTS2, 2, ctx.pick('WPin2', 'WPin3'), anchors='MCAnchorsGood'),
-                INVS, [], False, True))
+    if ctx.quick:
+        big.append(('names of the signer, depth<=3, 1 validation', consts(['v1'], 1, 'WPin3', anchors='MCAnchorsGood'), INVS, [], False, False))
+        big.append(('names of the signer, depth<=2, 2 validations', consts(['v1'], 2, 'WPin2', anchors='MCAnchorsGood'), INVS, [], False, False))
+        big.append(('names of the signer, two instances, 2 validations', consts(INSTS2, 2, 'WPinO', anchors='MCAnchorsGood'), INVS, [], False, False))
+    else:
+        big.append(('names of the signer, depth<=3, 1 validation', consts(INSTS2, 1, 'WPin3'), INVS, [], False, True))
+        big.append(('names of the signer, depth<=3, two instances, 2 validations', consts(INSTS2, 2, 'WPin3', anchors='MCAnchorsGood'), INVS, [], False, True))
     big.append(('one certificate under two names in flight together', consts(['v1'], 2, ctx.pick('WPinO', 'WPin2'), anchors='MCAnchorsGood',
                                                                            slots=['v1', 'v1b']), INVS, [], False, False))
     # key storages: the library's and the application's (bounded, forgetting); the verdict does not depend on them
@@ -603,7 +607,7 @@ def stage_a(ctx):
                                                                        stores=ctx.pick('MCStoreQ', 'MCStoreT')), INVS, [], True, False))
     if not ctx.quick:
         big.append(('key storages, two instances, 2 validations', consts(INSTS2, 2, 'WStore', anchors='MCAnchorsGood', stores='MCStoreQ'), INVS, [], False, True))
-        big.append(('liveness key storages / names of the signer', consts(['v1'], 2, 'WStorePin', anchors='MCAnchorsGood', stores='MCStoreQ'),
+        big.append(('liveness key storages and names of the signer', consts(['v1'], 2, 'WStorePin', anchors='MCAnchorsGood', stores='MCStoreQ'),
                     ['TypeOK'], ['Terminates'], False, True))
     # FreshnessPeriod of the certificates on the way
     big.append(('FreshnessPeriod of certificates', consts(['v1'], 2, 'WFresh', anchors='MCAnchorsGood'), INVS, [], False, False))
@@ -635,7 +639,7 @@ def stage_a(ctx):
     small = []
     for wname in ('W_AcceptDeep', 'W_CacheHit', 'W_Refused', 'W_RejectOtherAnchor', 'W_TwoInFlight', 'W_HealedAccept',
                   'W_TwoRootsAccept', 'W_TwoRootsRefuse', 'W_SameInstanceTwice', 'W_AcceptMixedAlgs', 'W_RejectBigKeyLink',
-                  'W_PinAccept', 'W_PinTwinAccept', 'W_PinBoth', 'W_Refetch', 'W_Evicted', 'W_Forgot'):
+                  'W_PinAccept', 'W_PinTwinAccept', 'W_Refetch', 'W_Evicted') + (() if ctx.quick else ('W_PinBoth', 'W_Forgot')):
         wp = os.path.join(tlc.BUILD, 'TrustChain_w_%s.cfg' % wname)
         tlc.write_cfg(wp, constants=consts(INSTS2, 2, 'WHeal', anchors='MCAnchorsGood', maxheal=1) if wname == 'W_HealedAccept' else
                       consts(INSTS2, 1, 'W2R', anchors='MCAnchors2') if wname.startswith('W_TwoRoots') else
@@ -738,13 +742,14 @@ def run(ctx):
             # how a link names its signer: the full name of the certificate packet (right digest / another packet of that name
             # / a packet nobody serves) or the key name, at every link; a second packet that names the certificate plainly
             ('names', consts(['v1'], 2, ctx.pick('WPin2', 'WPin3'), unk, has, anchors='MCAnchorsGood'), kts, ctx.pick(None, 6000)),
-            ('namelinks', consts(INSTS2, 1, 'WPin3', unk, has), kts, ctx.pick(60, 3000)),
+            ('namelinks', consts(['v1'], 1, 'WPin3', unk, has, anchors='MCAnchorsGood') if ctx.quick else consts(INSTS2, 1, 'WPin3', unk, has),
+             kts, ctx.pick(60, 3000)),
             ('names-inflight', consts(['v1'], 2, ctx.pick('WPinO', 'WPin2'), unk, has, anchors='MCAnchorsGood', slots=['v1', 'v1b']), kts, ctx.pick(50, 3000)),
             # key storages (the library's MemoryKeyStorage / EmptyKeyStorage, the application's unbounded / bounded one, Forget)
             ('storage', consts(['v1'], ctx.pick(2, 3), 'WStore', unk, has, anchors='MCAnchorsGood', stores=ctx.pick('MCStoreQ', 'MCStoreT')), kts,
              ctx.pick(150, 6000)),
             # FreshnessPeriod of the certificates on the way (fetched with MustBeFresh)
-            ('fresh', consts(['v1'], 2, 'WFresh', unk, has, anchors='MCAnchorsGood'), kts, ctx.pick(60, 2000))], pool, cache)
+            ('fresh', consts(['v1'], 2, 'WFresh', unk, has, anchors='MCAnchorsGood'), kts, ctx.pick(40, 2000))], pool, cache)
         ctx.note('stage B wall %.0fs (incl. learning)' % (time.time() - t1))
     t2 = time.time()
     if 'C' in ctx.stages:
